@@ -645,6 +645,35 @@ func (a *Adv) AuthProbes(perTxn int) int {
 				n++
 			}
 		}
+		// the claimed parent re-addressed to a policy of our own, correctly satisfied: for a parent in the
+		// accumulator the membership proof, for a parent created earlier in this block the comparison with
+		// the created output must refuse it (below the ephemeral-output fix height nothing is compared)
+		for ii := range orig.SiacoinInputs {
+			eph := orig.SiacoinInputs[ii].Parent.StateElement.LeafIndex == types.UnassignedLeafIndex
+			if eph && a.Child < a.G.C.Net.HardforkV2.EphemeralOutputHeight {
+				continue
+			}
+			if !eph && rapid.IntRange(0, 3).Draw(t, "readdressStored") != 0 {
+				continue
+			}
+			sub := types.PolicyPublicKey(Pub(2))
+			if sub.Address() == orig.SiacoinInputs[ii].Parent.SiacoinOutput.Address {
+				sub = types.PolicyPublicKey(Pub(3))
+			}
+			blk := CloneBlock(a.Honest)
+			x := &blk.V2.Transactions[ti]
+			x.SiacoinInputs[ii].Parent.SiacoinOutput.Address = sub.Address()
+			x.SiacoinInputs[ii].SatisfiedPolicy = types.SatisfiedPolicy{Policy: sub}
+			a.signV2(x, SignOpts{})
+			label := "v2/substitute/readdressed-parent"
+			if eph {
+				label = "v2/substitute/readdressed-ephemeral-parent"
+			}
+			if a.emit(blk, label, "reject", nil, nil) {
+				n++
+			}
+			break
+		}
 		// Foundation address change not authorized by the current management address
 		if hasInputs && orig.NewFoundationAddress == nil && len(orig.SiacoinInputs) > 0 {
 			authorized := false
